@@ -34,9 +34,10 @@ Norm(S) == {c \in S : c.oer = "same" \/ "OnError" \in ToSet(c.hs)}
 ShapeQ  == Fam(3, GraphsOn(3), St2, -1..2, {1, 2}, BOOLEAN, HL_Shape, {"same"}, {TRUE})
 HandQ   == Fam(2, GraphsOn(2), St3, {-1}, {1, 2}, {FALSE}, ListsUpTo(2), AllOers, BOOLEAN)
 MQuick  == Norm(ShapeQ \cup HandQ)
-MShape4 == Norm(Fam(4, GraphsOn(4), St2, -1..3, {1, 2}, BOOLEAN, HL_Shape, {"same"}, {TRUE}))
-MConc3  == Norm(Fam(3, GraphsOn(3), St2, -1..2, {3}, BOOLEAN, HL_Shape, {"same"}, {TRUE}))
-MHand   == Norm(Fam(3, GraphsOn(3), St3, {-1}, {1, 3}, BOOLEAN, ListsUpTo(4), AllOers, BOOLEAN))
+HL_Miss == {<<>>, <<"IgnoreMissing">>}
+MShape4 == Norm(Fam(4, GraphsOn(4), St2, {-1, 1, 2}, {2}, {FALSE}, HL_Miss, {"same"}, {TRUE}))
+MConc3  == Norm(Fam(3, GraphsOn(3), St2, -1..2, {3}, {FALSE}, HL_Shape, {"same"}, {TRUE}))
+MHand   == Norm(Fam(2, GraphsOn(2), St3, {-1}, {1, 2}, {FALSE}, ListsUpTo(4), AllOers, BOOLEAN))
 MDev    == Norm(Fam(3, GraphsOn(3), St2, {-1}, {2}, {FALSE}, HL_Shape, {"same"}, {TRUE}))
 
 \* ---- G (sequential walks only) ---------------------------------------------------------------
@@ -44,6 +45,6 @@ RootOk(S) == {c \in S : c.status[1] = "ok"}
 ConnG(N)  == {g \in GraphsOn(N) : Connected(g)}
 GShapeQ == Fam(3, GraphsOn(3), St2, -1..2, {0, 1}, BOOLEAN, HL_Shape, {"same"}, {TRUE})
 GHandQ  == RootOk(Fam(3, ConnG(3), St3, {-1}, {1}, {FALSE}, ListsUpTo(2), AllOers, {TRUE}))
-GShapeT == Fam(4, GraphsOn(4), St2, -1..3, {1}, BOOLEAN, HL_Shape, {"same"}, {TRUE})
-GHandT  == Fam(3, ConnG(3), St3, {-1}, {1}, BOOLEAN, ListsUpTo(4), AllOers, {TRUE})
+GShapeT == Fam(4, GraphsOn(4), St2, -1..3, {1}, {FALSE}, HL_Miss, {"same"}, {TRUE}) \cup GShapeQ
+GHandT  == Fam(3, ConnG(3), St3, {-1}, {1}, {FALSE}, ListsUpTo(4), AllOers, {TRUE})
 =============================================================================
